@@ -47,6 +47,7 @@ import CtyModel.Lemmas.d13Map
 import CtyModel.Lemmas.d13Misc
 import CtyModel.Lemmas.d13Product
 import CtyModel.Lemmas.d13NoPanic
+import CtyModel.Lemmas.d13SetN
 namespace CtyModel
 namespace C13
 open Stdlib Value
@@ -702,6 +703,25 @@ theorem setop_members (E : Env) (ety : Ty) (ns : List Num) (k : SetOpKind) (ida 
           k.spec (Spec.memBy (setRules E ety).equiv va y) (Spec.memBy (setRules E ety).equiv vb y)) :=
   setOp_members_carrier E ety ns k ida idb va vb hw hp ho hc hma hmb hha hhb
 
+/-- **…for ANY number of arguments** (`setunion`, `setintersection`,
+`setsymmetricdifference` are variadic): the result represents the LEFT FOLD of the
+binary operation over the arguments' membership predicates
+(`k.specN eqv first rest y = rest.foldl (fun acc l => k.spec acc (y ∈ l)) (y ∈ first)`),
+under the same invariant, its members drawn from the arguments -/
+theorem setop_members_variadic (E : Env) (ety : Ty) (ns : List Num) (k : SetOpKind)
+    (first : List Int × List Payload) (rest : List (List Int × List Payload))
+    (hw : ety.wf = true) (hp : ety.plain = true) (ho : ety.hasOpt = false) (hc : HashCoherentNums ns = true)
+    (hm : ∀ st ∈ first :: rest, ∀ p ∈ st.2, p.member ety ns = true)
+    (hh : ∀ st ∈ first :: rest, ∀ p ∈ st.2, E.hashAgrees ety p) :
+    ∃ s : SetImpl Payload,
+      setOpImpl E k (setArgs ety (first :: rest)) (.set ety) = .ok (ofSetImpl ety s) ∧
+      SetImpl.Inv (setRules E ety) s ∧
+      (∀ m ∈ SetImpl.values s, ∃ st ∈ first :: rest, m ∈ st.2) ∧
+      ∀ y, y.member ety ns = true →
+        (Spec.memBy (setRules E ety).equiv (SetImpl.values s) y ↔
+          k.specN (setRules E ety).equiv first.2 (rest.map (·.2)) y) :=
+  setOp_members_n E ety ns k first rest hw hp ho hc hm hh
+
 /-- **…at the instance the correspondence runs** (`std.callm`): under `modelEnv` the only
 thing asked of the hash is that the hash model answers (a decidable check per member) -/
 theorem setop_members_model (ety : Ty) (ns : List Num) (k : SetOpKind) (ida idb : List Int)
@@ -1196,6 +1216,8 @@ example : ∃ s : SetImpl Payload,
         [(.string, [1829654686], [.s "a"]), (.number, [450215437], [.n (Num.ofInt 2 64)])],
         (Value.hash ⟨.tuple [.string, .number], row⟩).isOk = true) row hr))
   ⟨s, h1, h5 (by simp)⟩
+example : SetOpKind.union.specN (rawB .string) [.s "a"] [[.s "b"], [.s "c"]] (.s "c") := by
+  simp [SetOpKind.specN, SetOpKind.spec, Spec.memBy, rawB]
 
 end C13
 end CtyModel
